@@ -412,6 +412,33 @@ func runC03(c *mon.Ctx) {
 						}
 					}
 				}
+				if vr.Chance(0.15) && t.EventIDFormat >= 2 {
+					// a string field of the proto-event with a byte that is no UTF-8, and the same field with another such
+					// byte: two proto-events. Build refuses them, or makes two events of them.
+					pa, pb := ps, ps
+					field := gen.Pick(vr, []string{"type", "state_key", "sender", "redacts"})
+					switch field {
+					case "type":
+						pa.Type, pb.Type = ps.Type+"\xff", ps.Type+"\xfe"
+					case "state_key":
+						pa.StateKey, pb.StateKey = strp("k\xff"), strp("k\xc0")
+						if t.Domainless && ps.Type == "m.room.create" {
+							field = ""
+						}
+					case "sender":
+						pa.Sender, pb.Sender = "@al\xffice:a.example", "@al\xfeice:a.example"
+					case "redacts":
+						pa.Redacts, pb.Redacts = "$x\xff", "$x\xfe"
+					}
+					if field != "" {
+						ea, erra := buildEvent(ver, pa, id, baseTime)
+						eb, errb := buildEvent(ver, pb, id, baseTime)
+						c.Count("built_with_a_string_field_that_is_not_utf8")
+						if erra == nil && errb == nil && ea.EventID() == eb.EventID() {
+							c.Failf("id:insensitive-to:bytes-that-are-not-utf8:"+field, "Build(v%s) makes one and the same event (%s) of two proto-events whose %s differ in a byte that is not UTF-8", ver, ea.EventID(), field)
+						}
+					}
+				}
 				if vr.Chance(0.25) {
 					// the proto-event brings a "signatures" member of its own (the make_join template of another server is
 					// such a proto-event): whatever Build makes of it re-parses; refusing is an answer too, except for a
@@ -488,11 +515,56 @@ func runC03(c *mon.Ctx) {
 						c.Failf("derived:SetUnsigned:"+d, "event returned by SetUnsigned differs in %s (v%s): %+v vs %+v", d, ver, base, tp)
 					}
 				}
+				{
+					// SetUnsigned returns a new event: the one it was called on - loaded from a buffer of the caller's, with an
+					// unsigned of its own - reads afterwards as it did before, and so does the caller's buffer. The new
+					// unsigned is shorter than, as long as, and longer than the old one.
+					withU := jv.Clone()
+					withU.Set("unsigned", ref.O("age", ref.I(1234567), "transaction_id", ref.S("txn-abcdef")))
+					text := gen.Plain().Bytes(withU)
+					for _, nu := range []map[string]any{{}, {"age": 7654321, "transaction_id": "txn-fedcba"}, {"age": 1, "transaction_id": "a-much-longer-transaction-id-than-before", "more": []int{1, 2, 3}}} {
+						gin, intact := mon.Guarded(text)
+						orig, err := impl.NewEventFromTrustedJSON(gin, false)
+						if err != nil {
+							break
+						}
+						before := string(orig.JSON())
+						if _, err := orig.SetUnsigned(nu); err == nil {
+							c.Count("set_unsigned_on_events_with_unsigned")
+							if after := string(orig.JSON()); after != before {
+								c.Failf("derived:SetUnsigned:original-event-rewritten", "v%s: the event SetUnsigned was called on reads %s afterwards, before %s", ver, after, before)
+							}
+							if d := intact(); d != "" {
+								c.Failf("derived:SetUnsigned:callers-buffer-written", "v%s: SetUnsigned on an event loaded from the caller's buffer: %s", ver, d)
+							}
+						}
+					}
+				}
 				f := fresh()
 				if err := f.SetUnsignedField("transaction_id", "txn1"); err != nil {
 					c.Failf("id:set-unsigned-field:error", "SetUnsignedField: %v", err)
 				} else {
 					reID("SetUnsignedField", f.JSON())
+				}
+				{
+					// a fault: a value that cannot be written as JSON. The edit is refused and the event is what it was.
+					g := fresh()
+					before := string(g.JSON())
+					site, msg, pan := mon.Guard(func() {
+						if err := g.SetUnsignedField("bad", make(chan int)); err == nil {
+							c.Failf("derived:SetUnsignedField:unwritable-value-accepted", "v%s: SetUnsignedField accepts a value that has no JSON form", ver)
+						}
+					})
+					c.Count("set_unsigned_field_refused_edits")
+					if pan {
+						c.Failf("derived:SetUnsignedField:panic:"+site, "SetUnsignedField panics on a value that has no JSON form: %s", msg)
+					} else if after := string(g.JSON()); after != before {
+						c.Failf("derived:SetUnsignedField:event-lost-after-a-refused-edit", "v%s: after SetUnsignedField refused a value the event reads %q, before %s", ver, after, before)
+					} else if err := g.SetUnsignedField("transaction_id", "txn2"); err != nil {
+						c.Failf("id:set-unsigned-field:error", "SetUnsignedField after a refused edit: %v", err)
+					} else {
+						reID("SetUnsignedField-after-a-refused-edit", g.JSON())
+					}
 				}
 				raw := jv.Clone()
 				raw.Set("unsigned", ref.O("age_ts", ref.I(1), "x", ref.S("y")))
